@@ -15,11 +15,20 @@ def hexStr? (h : String) : Option String :=
 
 def hexOf (s : String) : String := bytesHex (s.toUTF8.toList.map (·.toNat))
 
-def parseLabels (s : String) : Option (List (String × String)) :=
-  if s.isEmpty then some [] else
-  (s.splitOn ",").mapM (fun kv => match kv.splitOn "=" with
-    | [k, v] => (hexStr? v).map (fun v => (k, v))
-    | _ => none)
+/-- `k=<hexv>` or `k=#<hexv>` (# = the value is sent as a bare JSON number by the OTSDB datapoints with an even point
+    index); the second component lists the keys marked # -/
+def parseLabel (kv : String) : Option ((String × String) × Bool) :=
+  match kv.splitOn "=" with
+  | [k, v] =>
+    let num : Bool := v.startsWith "#"
+    (hexStr? (if num then (v.drop 1).toString else v)).map (fun (x : String) => ((k, x), num))
+  | _ => none
+
+def parseLabels (s : String) : Option (List (String × String) × List String) :=
+  if s.isEmpty then some ([], []) else
+  match (s.splitOn ",").mapM parseLabel with
+  | none => none
+  | some l => some (l.map (·.1), (l.filter (·.2)).map (·.1.1))
 
 def parsePoints (s : String) : Option (List (Nat × Nat)) :=
   if s.isEmpty then some [] else
@@ -33,7 +42,7 @@ def parseSeries (tok : String) : Option Series :=
   match tok.splitOn "{" with
   | [n, rest] => match rest.splitOn "}@" with
     | [ls, ps] => match hexStr? n, parseLabels ls, parsePoints ps with
-      | some n, some ls, some ps => some { name := n, labels := ls, points := ps }
+      | some n, some ls, some ps => some { name := n, labels := ls.1, points := ps, numKeys := ls.2 }
       | _, _, _ => none
     | _ => none
   | _ => none
@@ -47,17 +56,26 @@ def parseSeriesList : List String → Option (List Series)
 
 /-- the data set after the history: every series keeps exactly the points the history ingests -/
 def applyHistory (ss : List Series) (hist : List String) : Option (List Series) :=
-  let refs : Option (List (Nat × Nat)) := (hist.filter (fun t => t != "ro" && t != "br")).mapM (fun t =>
-    if t.startsWith "p" then match ((t.drop 1).toString).splitOn "." with
+  -- p<i>.<j> = OTSDB JSON, w<i>.<j> = Prometheus remote write (same datapoint, other protocol)
+  let refs : Option (List (Nat × Nat × Bool)) := (hist.filter (fun t => t != "ro" && t != "br")).mapM (fun t =>
+    if t.startsWith "p" || t.startsWith "w" then match ((t.drop 1).toString).splitOn "." with
       | [i, j] => match i.toNat?, j.toNat? with
-        | some i, some j => if i < ss.length && j < (ss.getD i default).points.length then some (i, j) else none
+        | some i, some j =>
+          -- (remote write cannot express a tag named __name__: that label IS the metric name there)
+          if i < ss.length && j < (ss.getD i default).points.length && !(t.startsWith "w" && (ss.getD i default).keys.contains "__name__")
+          then some (i, j, t.startsWith "w") else none
         | _, _ => none
       | _ => none
     else none)
   refs.map (fun refs =>
     (List.range ss.length).map (fun i =>
       let s := ss.getD i default
-      { s with points := (refs.filter (·.1 == i)).map (fun (_, j) => s.points.getD j default) }))
+      let mine := refs.filter (·.1 == i)
+      -- a JSON number is sent by the OTSDB datapoints with an even point index only
+      let numSent := mine.any (fun (_, j, w) => !w && j % 2 == 0)
+      { s with points := mine.map (fun (_, j, _) => s.points.getD j default),
+               viaRW := mine.any (·.2.2),
+               numKeys := if numSent then s.numKeys else [] }))
 
 def parseMOp (s : String) : Option MOp :=
   match s with | "eq" => some .eq | "ne" => some .ne | "re" => some .re | "nre" => some .nre | _ => none
@@ -134,8 +152,66 @@ def me (args : List String) : String :=
   | some ds, some qs => " | ".intercalate (qs.map (answer ds))
   | _, _ => "bad-op"
 
+/-! ### command `mc`: MANY series that share one tag value (cardinality; harness/cmd/corr/e2e_metrics.go execE2EMC)
+
+   mc <n> <hexname> <sharedKey>=<hexv> <idKey> <ts> Q <query…>
+   series i (0 ≤ i < n) = name{sharedKey=v, idKey="s<i>"} with the single point (ts, float64(i mod 50)); all of them are
+   ingested (OTSDB JSON), no rotation before the queries.  The answer is the specification's (`selected`, `aggregated`);
+   the class list is `tsids-per-value-over-64k` iff n > 65535 (the generic `classes` is quadratic in the number of series). -/
+
+/-- float64 bit pattern of a natural number below 2^53 -/
+def natF64Bits (k : Nat) : Nat :=
+  if k == 0 then 0 else
+  let e := Nat.log2 k
+  (1023 + e) * 2 ^ 52 + (k - 2 ^ e) * 2 ^ (52 - e)
+
+def mcSeries (n : Nat) (name sk sv ik : String) (ts : Nat) : List Series :=
+  (List.range n).map (fun i =>
+    { name := name, labels := [(sk, sv), (ik, "s" ++ toString i)], points := [(ts, natF64Bits (i % 50))] })
+
+def answerMc (n : Nat) (ds : List Series) (q : Query) : String :=
+  match calcInterval (q.end_ - q.start) with
+  | none => "kind=bad-range"
+  | some _ =>
+    let sel := selected ds q
+    let cls := if n > 65535 then "tsids-per-value-over-64k" else ""
+    let lat := ",".intercalate (latitude q sel)
+    match q.agg with
+    | none =>
+      let namere := if q.matchers.any (fun m => m.label == "__name__" && (m.op == .re || m.op == .nre)) then "1" else "0"
+      let ser := sortStrings (sel.map (fun (s, ps) =>
+        hexOf s.name ++ showLabels s.labels ++ "@" ++ ",".intercalate (ps.map (fun (t, v) => s!"{t}:{natHexW v 16}"))))
+      s!"kind=mseries namere={namere} ser={";".intercalate ser} cls={cls} lat={lat}"
+    | some a =>
+      match aggregated a sel with
+      | none => s!"kind=magg-undefined cls={cls} lat={lat}"
+      | some gs =>
+        let ser := sortStrings (gs.map (fun (k, pts) =>
+          showLabels k ++ "@" ++ ",".intercalate (pts.map (fun (t, v) => s!"{t}:{showRat v}"))))
+        s!"kind=magg fn={showFn a.fn} ser={";".intercalate ser} cls={cls} lat={lat}"
+
+def isLabelName (s : String) : Bool :=
+  !s.isEmpty && s.toList.all (fun c => c.isAlphanum || c == '_') && !(s.toList.headD 'a').isDigit
+
+def mc (args : List String) : String :=
+  match args with
+  | n :: name :: shared :: ik :: ts :: "Q" :: qs =>
+    match n.toNat?, hexStr? name, shared.splitOn "=", ts.toNat?, qs.mapM parseQuery with
+    | some n, some name, [sk, svh], some ts, some qs =>
+      match hexStr? svh with
+      | some sv =>
+        if n < 1 || n > 200000 || qs.isEmpty || !isLabelName sk || !isLabelName ik || sk == ik || sk == "__name__" || ik == "__name__"
+           || ts > 4294967295 then "bad-op"
+        else
+          let ds := mcSeries n name sk sv ik ts
+          " | ".intercalate (qs.map (answerMc n ds))
+      | none => "bad-op"
+    | _, _, _, _, _ => "bad-op"
+  | _ => "bad-op"
+
 def handle (cmd : String) (args : List String) : Option String :=
   match cmd with
   | "me" => some (me args)
+  | "mc" => some (mc args)
   | _ => none
 end Oracle.E2EM
